@@ -14,6 +14,7 @@ TESTS=$(PYTHONPATH=$WT/src /venv/bin/python -m pytest -q -p no:cacheprovider --t
 git apply -R $OUT/patch.diff && { PYTHONPATH=$WT/src /venv/bin/python demo_$P.py > $OUT/demo_without.log 2>&1; DO=$?; git apply $OUT/patch.diff; }
 # against the checks
 cd /verif
+[ "$EVAL_PHASE" = confirm ] && { echo "$P demo_with=$DW demo_without=$DO tests='$TESTS' (confirm only)"; exit 0; }
 git -C /repo status --short | grep -q . && { echo "$P: /repo not clean"; exit 3; }
 git -C /repo apply $OUT/patch.diff || { echo "$P: patch does not apply to /repo"; exit 3; }
 ./vcheck $P --tier $TIER > $OUT/check_$TIER.log 2>&1; RC=$?
